@@ -388,7 +388,7 @@ func (srv *Session) handleDescribe(ctx context.Context, reader *buffer.Reader, w
 	case types.DescribeStatement:
 		statement, err := srv.Statements.Get(ctx, name)
 		if err != nil {
-			return err
+			return srv.extendedError(writer, err)
 		}
 
 		if statement == nil {
@@ -405,7 +405,7 @@ func (srv *Session) handleDescribe(ctx context.Context, reader *buffer.Reader, w
 	case types.DescribePortal:
 		portal, err := srv.Portals.Get(ctx, name)
 		if err != nil {
-			return err
+			return srv.extendedError(writer, err)
 		}
 
 		if portal == nil {
@@ -466,7 +466,7 @@ func (srv *Session) handleBind(ctx context.Context, reader *buffer.Reader, write
 
 	stmt, err := srv.Statements.Get(ctx, statement)
 	if err != nil {
-		return err
+		return srv.extendedError(writer, err)
 	}
 
 	if stmt == nil {
@@ -475,7 +475,7 @@ func (srv *Session) handleBind(ctx context.Context, reader *buffer.Reader, write
 
 	err = srv.Portals.Bind(ctx, name, stmt, parameters, formats)
 	if err != nil {
-		return err
+		return srv.extendedError(writer, err)
 	}
 
 	writer.Start(types.ServerBindComplete)
